@@ -160,6 +160,12 @@ def run_c09(exe, groups, r, n, dbg=True):
                 pairs = [("self_compose", X, gen.req(dbg, "o", group, "compose", 0, X + X)),
                          ("self_compose2", X, gen.req(dbg, "o", group, "compose", 0, X + X)),
                          ("self_timeseq", X, gen.req(dbg, "o", group, "compose", 0, X + X)),
+                         ("self_timeseq_cv", X, gen.req(dbg, "o", group, "compose", 0, X + X)),
+                         ("self_timeseq_vx", X, gen.req(dbg, "o", group, "compose", 0, X + X)),
+                         ("self_compose_cv", X, gen.req(dbg, "o", group, "compose", 0, X + X)),
+                         ("self_compose_vx", X, gen.req(dbg, "o", group, "compose", 0, X + X)),
+                         ("self_inverse_cv", X, gen.req(dbg, "o", group, "inverse", 0, X)),
+                         ("self_rplus_cv", X + t_, gen.req(dbg, "o", group, "rplus", 0, X + t_)),
                          ("self_inverse", X, gen.req(dbg, "o", group, "inverse", 0, X)),
                          ("self_between", X + Y, gen.req(dbg, "o", group, "between", 0, X + Y)),
                          ("self_rplus", X + t_, gen.req(dbg, "o", group, "rplus", 0, X + t_)),
